@@ -181,6 +181,8 @@ def impl_eligible(scn):
         return False
     if any((t or {}).get('rtype') for t in scn.get('events', {}).values()):
         return False
+    if any(h.get('retry') for h in scn['handlers']):
+        return False   # @retry-decorated handlers: the decorator's own tasks / timeouts are not part of the bus model
     for sc in scn['scripts'].values():
         for ops in sc.values():
             for k, op in enumerate(ops):
